@@ -15,7 +15,7 @@ import shutil
 import subprocess
 import sys
 
-WT = "/root/work/wt/eval"
+WT = os.environ.get("EVAL_WT", "/root/work/wt/eval")
 
 
 def sh(cmd, cwd=None, timeout=1800):
